@@ -9,6 +9,7 @@ from ..core import SKIP
 
 ID = "C11"
 PARALLEL = 16
+CASE_TIMEOUT_S = 30
 RULE = ("exhaustive: every dataset of n <= 10 (quick: n <= 7) sorted entries x all 2^(n-1) ways of cutting it into consecutive "
         "non-empty chunks: group-by on every key pattern (which neighbours share a key) for the encoded-ragged key column "
         "(first=last shortcut; every (pattern, chunking) pair for n <= 9 / 7, a seeded 15% of the 4^9 pairs for n = 10) and for string and integer key columns (n <= 8 / 5); mean / bincount / histogram "
@@ -18,7 +19,7 @@ RULE = ("exhaustive: every dataset of n <= 10 (quick: n <= 7) sorted entries x a
         "genome pipelines (pileup histogram / sum / mask / values under intervals / merged; 1-4 chromosomes, some empty). "
         "Non-trivial = at least 2 chunks and (a cut inside a group, or a single-entry chunk, or a short last chunk)")
 EXHAUSTIVE = {"quick": True, "thorough": True}
-MODEL_OPS = {"mean", "bincount", "histogram", "count_kmers", "groupby", "chunk_entries", "chunk_lines", "graph", "graph_many", "pipeline"}
+MODEL_OPS = {"mean_axis0", "rowmean", "quantile", "mean", "bincount", "histogram", "count_kmers", "groupby", "chunk_entries", "chunk_lines", "graph", "graph_many", "pipeline"}
 ASSUMPTIONS = [
     "per-chunk functions are NumPy externals (np.bincount, np.histogram with explicit edges, np.sum) modelled by their list-level meaning",
     "itertools.groupby / itertools.chain merge consecutive equal keys (modelled as joinGroups)",
@@ -61,6 +62,7 @@ MANIFEST = {
 LABELS = ["chr1", "chr10", "chr11", "x", "chr2", "chrY", "c", "chr12", "z9", "w", "chr3", "q"]   # neighbours that are prefixes of each other first
 VALS = [3, 0, 5, 5, 1, 7, 2, 0, 9, 4, 6, 1]
 VALS2 = [0, 0, 2, 1, 8, 8, 3, 12, 0, 5]
+SEQS5 = ["ACGTN", "NNA", "A", "", "NACN", "TTN", "GNNG", "N", "ACGT", "NN"]
 SEQS = ["ACGT", "AC", "GGTA", "A", "TTTT", "CAGT", "", "ACG", "TGCA", "CC", "GATTACA", "AAC"]
 
 _CACHE = {}
@@ -202,6 +204,10 @@ def cases(tier, rng):
                                (30000, 40, [1000]), (30000, 40, [10000, 20000]), (56000, 40, [28000])):
         yield {"op": "count_kmers_big", "nreads": nreads, "rlen": rlen, "k": 5, "cuts": cuts, "seed": 7 + nreads % 5,
                "chunks": [[0]] * (len(cuts) + 1)}
+    # 0d. re-chunking to n < 1 entries is refused (ValueError), never an endless stream of empty chunks
+    for ch in ([[0, 1, 2]], [[0], [1, 2]], []):
+        yield {"op": "chunk_entries", "chunks": ch, "n": 0}
+        yield {"op": "chunk_lines", "chunks": ch, "n": 0}
     # 0c. empty chunks (an empty table in the stream: a filtered-out chunk, an empty file part) at every position of
     #     every chunking of n <= 4 entries (groupby returns no groups for an empty table since 5241510)
     for n in range(1, 5):
@@ -226,6 +232,16 @@ def cases(tier, rng):
     # 1. exhaustive chunkings
     for n in range(1, N + 1):
         for mask in range(2 ** (n - 1)):
+            if n <= (8 if big else 6):
+                for w in (1, 3):
+                    rows2 = [[VALS[(i + j) % len(VALS)] - 2 * j for j in range(w)] for i in range(n)]
+                    yield {"op": "mean_axis0", "chunks": _cut(rows2, mask), "w": w}
+                    yield {"op": "rowmean", "chunks": _cut(rows2, mask), "w": w}
+                for p_, d_ in ((1, 2), (1, 4), (3, 4), (0, 1), (1, 1)):
+                    yield {"op": "quantile", "chunks": _cut(VALS[:n], mask), "qp": p_, "qd": d_}
+                seqs5 = [[("ACGTN".index(ch_)) for ch_ in s_] for s_ in SEQS5[:n]]
+                for k in (1, 2):
+                    yield {"op": "count_kmers", "chunks": _cut(seqs5, mask), "k": k, "A": 5}
             for vals in (VALS[:n], VALS2[:n]):
                 ch = _cut(vals, mask)
                 yield {"op": "mean", "chunks": ch, "scale": 1}
@@ -366,12 +382,12 @@ def nontrivial(c):
         ch = c["nodes"][0]["chunks"]
     if len(ch) < 2:
         return False
-    if any(len(x) == 1 for x in ch) or len(ch[-1]) < len(ch[0]):
+    if any(len(x) <= 1 for x in ch) or len(ch[-1]) < len(ch[0]):
         return True
     if c["op"] == "graph_many":
         return len(c["roots"]) > 1 or c["mode"] == "reduce"
     if c["op"] in ("groupby", "pipeline"):
-        return any(a[-1][0] == b[0][0] for a, b in zip(ch[:-1], ch[1:]))
+        return any(a and b and a[-1][0] == b[0][0] for a, b in zip(ch[:-1], ch[1:])) or any(len(x) == 0 for x in ch)
     return False
 
 
@@ -386,6 +402,8 @@ def _err(e):
         return {"err": "stop"}
     if isinstance(e, AssertionError):
         return {"err": "assertion"}
+    if isinstance(e, ValueError):
+        return {"err": "value"}
     return {"err": "other:" + type(e).__name__}
 
 
@@ -424,11 +442,16 @@ def _kmer_digest(labels, counts):
     return tot
 
 
-def _kmer_obs(r, k):
+def _alpha5():
+    from bionumpy.encodings import alphabet_encoding as ae
+    return ae.ACGTnEncoding
+
+
+def _kmer_obs(r, k, alpha="ACGT"):
     out = []
     for lab, cnt in zip(r.alphabet, np.asarray(r.counts).ravel().tolist()):
         if cnt:
-            out.append([["ACGT".index(ch) for ch in str(lab)], int(cnt)])
+            out.append([[alpha.index(ch) for ch in str(lab)], int(cnt)])
     return sorted(out)
 
 
@@ -588,6 +611,21 @@ def impl(c):
             r = bnp.streams.mean(st)
             mem = bnp.streams.mean(allv)
             return {"v": _fl(np.asarray(r).ravel()[0]), "mem": _fl(np.asarray(mem).ravel()[0]), "np": _fl(np.mean(allv))}
+        if op in ("mean_axis0", "rowmean"):
+            w = c["w"]
+            arrs = [np.array(ch, dtype=int).reshape(len(ch), w) for ch in c["chunks"]]
+            allv = np.concatenate(arrs) if arrs else np.zeros((0, w), dtype=int)
+            ax = 0 if op == "mean_axis0" else 1
+            r = bnp.streams.mean(m["BnpStream"](iter(arrs)), axis=ax)
+            if ax == 1:
+                r = np.concatenate([np.asarray(x).ravel() for x in r])      # `streamable()`: a stream of per-chunk results
+            mem = bnp.streams.mean(allv, axis=ax)
+            f = lambda x: [_fl(v) for v in np.asarray(x).ravel()]
+            return {"v": f(r), "mem": f(mem), "np": f(np.mean(allv, axis=ax))}
+        if op == "quantile":
+            st, allv = _vstream(m, c["chunks"])
+            q = c["qp"] / c["qd"]
+            return {"v": int(bnp.streams.quantile(st, q)), "mem": int(bnp.streams.quantile(allv, q))}
         if op == "bincount":
             st, allv = _vstream(m, c["chunks"])
             r = bnp.streams.bincount(st, minlength=c["minlength"])
@@ -610,14 +648,16 @@ def impl(c):
             f = lambda e: {"total": int(np.sum(e.counts)), "digest": _kmer_digest(e.alphabet, np.asarray(e.counts).ravel())}
             return {"v": f(r), "mem": f(mem)}
         if op in ("count_kmers", "count_kmers1"):
-            mk = lambda rows: bnp.as_encoded_array(["".join("ACGT"[x] for x in s) for s in rows], bnp.DNAEncoding)
+            alpha = "ACGTN" if c.get("A") == 5 else "ACGT"
+            enc = _alpha5() if c.get("A") == 5 else bnp.DNAEncoding
+            mk = lambda rows: bnp.as_encoded_array(["".join(alpha[x] for x in s) for s in rows], enc)
             vm = _vmode(c)
             parts = [mk(ch) for ch in c["chunks"]] if vm == 0 else \
                 _split(mk([s for ch in c["chunks"] for s in ch]), [len(ch) for ch in c["chunks"]], vm)
             st = m["BnpStream"](iter(parts))
             r = m["count_kmers"](st, c["k"])
             mem = m["count_kmers"](mk([s for ch in c["chunks"] for s in ch]), c["k"])
-            return {"v": _kmer_obs(r, c["k"]), "mem": _kmer_obs(mem, c["k"])}
+            return {"v": _kmer_obs(r, c["k"], alpha), "mem": _kmer_obs(mem, c["k"], alpha)}
         if op == "groupby":
             col = _COL[c["kt"]]
             # the wide 4-column table on small data, one key column + ids otherwise (same code path, cheaper to build)
@@ -722,6 +762,20 @@ def oracle(c):
     data = _flat(c["chunks"]) if "chunks" in c else None
     if op == "mean":
         return {"sum": sum(data), "n": len(data)}
+    if op == "mean_axis0":
+        return [sum(r[j] for r in data) for j in range(c["w"])] + [len(data)]
+    if op == "rowmean":
+        return [sum(r) for r in data]
+    if op == "quantile":
+        if not data:
+            return SKIP
+        size = max(data) + 1
+        hist = [data.count(v) for v in range(size)]
+        cum, tot = [], 0
+        for h in hist:
+            tot += h
+            cum.append(tot)
+        return sum(1 for x in cum if x * c["qd"] < c["qp"] * tot)
     if op == "bincount":
         size = max([max(data) + 1 if data else 0, c["minlength"]])
         return [data.count(v) for v in range(size)]
@@ -762,7 +816,7 @@ def oracle(c):
     if op in ("chunk_entries", "chunk_lines"):
         n = c["n"]
         if n < 1:
-            return SKIP
+            return {"err": "value"}
         return [data[i:i + n] for i in range(0, len(data), n)]
     if op == "graph":
         vals = []
@@ -912,6 +966,10 @@ def _as_value(c, exp):
     """what the implementation's observation should be, from the oracle value"""
     if c["op"] == "mean":
         return _fl(Fraction(exp["sum"], exp["n"] * c["scale"]))
+    if c["op"] == "mean_axis0" and isinstance(exp, list):
+        return [_fl(Fraction(x, exp[-1])) for x in exp[:-1]] if exp[-1] else None
+    if c["op"] == "rowmean" and isinstance(exp, list):
+        return [_fl(Fraction(x, c["w"])) for x in exp]
     if c["op"] == "graph_many" and c["mode"] == "reduce" and isinstance(exp, dict) and "vals" in exp:
         fs = [c["nodes"][r].get("f") for r in c["roots"]]
         return {"vals": [(_fl(Fraction(v[0], v[1])) if v[1] else None) if f == "sumN" else v for f, v in zip(fs, exp["vals"])]}
@@ -919,6 +977,8 @@ def _as_value(c, exp):
 
 
 def agree(c, got, exp):
+    if isinstance(exp, dict) and "err" in exp:
+        return core.canon(got) == core.canon(exp)
     if not isinstance(got, dict) or "v" not in got:
         return False
     want = core.canon(_as_value(c, exp))
